@@ -29,7 +29,7 @@ RULES = {
     "C19-X4": "range ends with different dimension counts => ERROR; dimension count and range flag stored on every OK path",
     "C19-X5": "channelSpec: number ('!' number)*; a '!' that is not followed by a number is ERROR, no number at all is NO_MORE, OK only after a number that is not followed by '!'",
     "C19-X7": "the integer readers the list walkers call without looking at their result deliver into the caller's variable whenever the conversion ran (no success-gated copy): an entry never keeps the previous entry's value",
-    "C19-X6": "channel list: NO_MORE only after the end of the expression was seen (malformed rest => ERROR with -170)",
+    "C19-X6": "channel list: NO_MORE only after the end of the expression was seen (malformed rest => ERROR with -170) and only behind an entry that was parsed and found well formed (an empty channel list is malformed)",
 }
 
 WALKERS = (("SCPI_ExprNumericListEntry", "numericRange"), ("SCPI_ExprChannelListEntry", "channelRange"))
@@ -66,6 +66,8 @@ def rule_walkers(ck, prog, S):
         ok_paths = unexamined = 0
         err_silent = []
         nomore_bad = []
+        nomore_empty = []
+        n_nomore_const = 0
         for ps in sums:
             fr = final_result(ps, prog)
             if fr is None:
@@ -99,6 +101,14 @@ def rule_walkers(ck, prog, S):
                 eos = [pol for a, pol in ps.facts if not isinstance(pol, tuple) and a.k == "CallExpr" and a.get("callee") == "scpiLex_IsEos"]
                 if not eos or eos[-1] is not True:
                     nomore_bad.append(ps)
+                # an end of list follows an entry: NO_MORE decided by the walker itself (not handed up from the range parser)
+                # needs an entry that was parsed and found OK on the same path
+                if fr[0] == "const":
+                    n_nomore_const += 1
+                    neq = [pol for a, pol in ps.facts if not isinstance(pol, tuple) and a.k == "BinaryOperator" and
+                           a.get("op") == "!=" and a.child(0).strip_all_casts().get("path") == "res" and C.const_of(a.child(1)) == OK]
+                    if last < 0 or not neq or neq[-1] is not False:
+                        nomore_empty.append(ps)
         st = K.site(f, "delimiter-after-requested-entry", 0)
         if ok_paths == 0:
             ck.anchor_lost("C19-X2", "%s has no OK path" % wname)
@@ -122,6 +132,16 @@ def rule_walkers(ck, prog, S):
                             "list is taken for a clean end of list (no -170)", {"path": nomore_bad[0].describe()[-6:]})
             else:
                 ck.holds("C19-X6", st, K.loc(f), "NO_MORE only with scpiLex_IsEos true")
+            st = K.site(f, "no-more-only-behind-an-entry", 0)
+            if nomore_empty:
+                ck.violated("C19-X6", st, K.loc(f, nomore_empty[0].ret_node),
+                            "the channel walker decides NO_MORE on a path on which no entry was parsed and found well formed: a list "
+                            "without any channel (`(@)`) is reported as a clean end of list, nothing is queued",
+                            {"path": nomore_empty[0].describe()[-6:]})
+            elif not n_nomore_const:
+                ck.anchor_lost("C19-X6", "%s: no path on which the walker itself decides NO_MORE" % wname)
+            else:
+                ck.holds("C19-X6", st, K.loc(f), "%d path(s) deciding NO_MORE, each behind an entry found OK" % n_nomore_const)
             # capacity passed only for the requested entry
             st = K.site(f, "capacity-for-requested-entry-only", 0)
             rc = list(f.calls(rname))
